@@ -50,8 +50,11 @@ class App19(c02.ProgApp):
         return super().__call__(environ, start_response)
 
 
+MAXLEN = 2
+
+
 def programs19(method):
-    for prog in c02.programs(2, method):
+    for prog in c02.programs(MAXLEN, method):
         if prog[4] is None:
             yield prog
             if prog[3] == "list":
@@ -91,7 +94,8 @@ def judge_truth(key, prog, kind, o, calls):
 
 
 def _truth_task(t):
-    wi, shard = t
+    global MAXLEN
+    wi, shard, MAXLEN = t
     kind, kw = c02.WORKER_CFGS[wi]
     scratch = tempfile.mkdtemp(prefix="verif-c19-", dir="/dev/shm")
     app = App19(scratch)
@@ -261,7 +265,7 @@ def _task(t):
 
 
 def run(ctx):
-    tasks = [("T", wi, s) for wi in range(len(c02.WORKER_CFGS)) for s in range(c02.HEAD_SHARDS)]
+    tasks = [("T", wi, s, 3 if ctx.thorough else 2) for wi in range(len(c02.WORKER_CFGS)) for s in range(c02.HEAD_SHARDS)]
     nf = 1 + 2 * len(ATOMS)
     tasks += [("H", wi, f) for wi in range(len(HOSTILE_WORKERS)) for f in range(nf)]
     tasks += [("R", wi, s) for wi in range(len(HOSTILE_WORKERS)) for s in range(4)]
